@@ -523,9 +523,31 @@ theorem pres_logonReply (g0 : G1) (s : Sess) (m : InMsg) (flag : Bool) : Pres g0
   unfold logonReply
   pres_cases
 
-theorem pres_logonFinish (g0 : G1) (s : Sess) (m : InMsg) : Pres g0 s (logonFinish s m).1 := by
-  unfold logonFinish
+theorem pres_nxEval (g0 : G1) (s : Sess) (m : InMsg) (ns : Int) : Pres g0 s (nxEval s m ns).1 := by
+  unfold nxEval
   pres_cases
+
+theorem pres_logonFinish (g0 : G1) (s : Sess) (m : InMsg) (ns : Int) : Pres g0 s (logonFinish s m ns).1 := by
+  unfold logonFinish
+  have h : Pres g0 s (nxEval (((s.setSentReset false).emit (.armPeer (1200 * s.hb))).emit .onLogon) m ns).1 :=
+    Pres.trans (by pres_peel) (pres_nxEval g0 _ m ns)
+  generalize nxEval _ m ns = r at h
+  obtain ⟨x, o⟩ := r
+  cases o with
+  | some r => exact h
+  | none =>
+    dsimp only at h ⊢
+    pres_cases
+
+theorem pres_logonRefused (g0 : G1) (s : Sess) (m : InMsg) : Pres g0 s (logonRefused s m) := by
+  unfold logonRefused
+  pres_cases
+
+theorem pres_logonTail (g0 : G1) (s : Sess) (m : InMsg) (ns : Int) : Pres g0 s (logonTail s m ns).1 := by
+  unfold logonTail
+  split
+  · exact pres_logonRefused g0 s m
+  · exact (pres_logonReply g0 s m _).trans (pres_logonFinish g0 _ m _)
 
 theorem pres_handleLogon (g0 : G1) (s : Sess) (m : InMsg) (hk : isAdminKind (kindOf m) = true) : Pres g0 s (handleLogon s m).1 := by
   unfold handleLogon
@@ -553,7 +575,7 @@ theorem pres_handleLogon (g0 : G1) (s : Sess) (m : InMsg) (hk : isAdminKind (kin
       have h4 := h3.trans hv2
       cases o2 with
       | some r => exact h4
-      | none => exact (h4.trans (pres_logonReply g0 s4 m _)).trans (pres_logonFinish g0 _ m)
+      | none => exact h4.trans (pres_logonTail g0 s4 m _)
 
 theorem admin_of_eq (m : InMsg) (k : String) (hk : (kindOf m == k) = true) (ha : isAdminKind k = true) : isAdminKind (kindOf m) = true := by
   have : kindOf m = k := by simpa using hk
